@@ -21,6 +21,13 @@ META = {
 }
 
 
+def _is_text_param(f, e):
+    """e is the function's text parameter (its first `&str` parameter, whatever it is called) — the WHOLE input, not a window of it"""
+    from ..db import is_local
+    lid = next((p_.get("lid") for p_ in (f.info.get("params") or []) if isinstance(p_, dict) and (p_.get("ty") or "") == "&str"), None)
+    return lid is not None and is_local(e, lid)
+
+
 @rule("C16.word-extent", "in NonBreakChecker::has_non_break_word every slice of the input text taken while examining a dictionary word is "
                          "bounded above by that word's end / the boundary (the verdict for a word ending on the boundary concerns the matched "
                          "word only); a word extending past the boundary vetoes the break")
@@ -32,7 +39,7 @@ def word_extent(db, ctx):
         raise AnchorMissing("has_non_break_word: lookup loop")
     n_slices = 0
     for n, ps in walk(f.hir):
-        if n.get("k") == "Index" and "str" in (n.get("bty") or "") and local_name(n["e"]) == "input":
+        if n.get("k") == "Index" and "str" in (n.get("bty") or "") and _is_text_param(f, n["e"]):
             n_slices += 1
             rng = deref_let(n["i"])
             kind = (rng.get("path") or "").split("::")[-1] if rng.get("k") == "Struct" else render(rng)
@@ -129,7 +136,7 @@ def vetoes(db, ctx):
             if a.get("k") == "LetExpr":
                 pth = (a.get("pat") or {}).get("path") or ""
                 if pth.endswith("Some"):
-                    if nf(a["init"]) == "checker":
+                    if "NonBreakChecker" in (peel(a["init"]).get("ty") or "") and peel(a["init"]).get("res") == "local":
                         return True                # scenario: a checker is present
                     s_ = peel(select(db, f, a["init"], ev))
                     if isinstance(s_, dict) and s_.get("k") == "Path" and (s_.get("path") or "").endswith("None"):
@@ -177,7 +184,7 @@ def vetoes(db, ctx):
         if is_call(x) and path_ends(callee(x), "has_non_break_word"):
             a_ = call_args(x)
             same = nf(select(db, f, a_[2], mk_ev(()))) == nf(sel) or peel_casts(a_[2]).get("lid") == peel_casts(val).get("lid")
-            nbc = (nf(a_[1]), same)
+            nbc = ("input" if _is_text_param(f, a_[1]) else nf(a_[1]), same)
     ctx.ob("has_non_break_word-args", nbc is not None and nbc[0] == "input" and nbc[1], "has_non_break_word is called with (input, <the boundary that is returned>): %s" % (nbc,), fn=f)
 
 
